@@ -118,7 +118,7 @@ struct ProcState {
     bool inChild, synthetic; bool active;      // active: fork()/waitpid() calls belong to the simulated run (the library's own platform functions run for real, libc's are wrapped at link time)
     int test; Vec<Op> script; size_t pos; int64_t eintrLeft; int nextFake; int waitCalls;
     Vec<int> livePids;
-    int pipeFd[2]; size_t childFlushPos; size_t parentFlushPos;
+    int pipeFd[2]; size_t childFlushPos; size_t parentFlushPos; int lastForkPid;
 };
 static ProcState PS;
 extern "C" pid_t __real_fork(void); extern "C" pid_t __real_waitpid(pid_t, int*, int);
@@ -135,15 +135,17 @@ static int simFork() {
     if (PS.test >= 0) { const Group& T = RS.d->groups[(size_t)RS.testGroups[(size_t)PS.test]]; for (size_t i = 0; i < T.ops.size(); i++) if (T.ops[i].phase == PH_PROC) PS.script.push_back(T.ops[i]); }
     procLog(1, 0);
     for (size_t i = 0; i < PS.script.size(); i++) if (PS.script[i].kind == K_FORK_FAIL) { procLog(5, 0); fired("fork_fail"); errno = EAGAIN; return -1; }
-    if (PS.synthetic) return 1000000 + PS.nextFake++;
+    if (PS.synthetic) { PS.lastForkPid = 1000000 + PS.nextFake++; return PS.lastForkPid; }
     fflush(0);
     int pid = (int)__real_fork();
     if (pid == 0) { PS.inChild = true; PS.childFlushPos = PS.parentFlushPos <= simIO().console.size() ? PS.parentFlushPos : 0; return 0; }      // the child inherits the unflushed part of the parent's output buffer
     if (pid > 0) PS.livePids.push_back(pid);
+    PS.lastForkPid = pid;
     return pid;
 }
 static int simWaitPid(int pid, int* status, int options) {
     procLog(2, ++PS.waitCalls);
+    if (pid != PS.lastForkPid) { procLog(6, pid); fired("wait_for_another_child"); }      // the parent waits for something other than the child it forked for this test
     while (PS.pos < PS.script.size()) {
         const Op& o = PS.script[PS.pos];
         if (o.kind == K_W_EINTR) {
